@@ -23,7 +23,7 @@ ASSUMPTIONS = ['exactness tolerance 1e-9*total after 3*diameter + 60 sweeps (GBP
                'clique sets for exactness contain distinct cliques (a potentials dict cannot hold a duplicate key)',
                'class B (non-zero potentials on derived intersection regions of a Kikuchi region graph) is the open finding F8']
 PLAN = {
-    'quick': dict(cases=400, budget_s=75, case_timeout=300, min_cases=100),
+    'quick': dict(cases=400, budget_s=120, case_timeout=300, min_cases=60),
     'thorough': dict(cases=8000, budget_s=900, case_timeout=600, min_cases=1333),
 }
 KINDS = ['norm_rg_convex', 'norm_rg_approx', 'norm_fg', 'exact_gbp_A', 'exact_gbp_A', 'exact_gbp_B', 'exact_lbp', 'exact_lbp']
